@@ -464,7 +464,7 @@ func (e *SpecEnv) call(n SCall) *Val {
 	case "denomAt":
 		// denomAt(coins, i): the denomination of the i-th entry of a Coins value seen as a slice
 		v := e.eval(n.Args[0])
-		if v.K != VCoins {
+		if v.K != VCoins && !(v.K == VArr && v.T.Sort == sortStrArrInt) {
 			sfail("denomAt(coins, i)")
 		}
 		return &Val{K: VStr, T: DenomAt(v.T, e.evalInt(n.Args[1]))}
@@ -526,6 +526,27 @@ func (e *SpecEnv) call(n SCall) *Val {
 			sfail("global(\"pkg.Name\")")
 		}
 		return &Val{K: VStr, T: Const("glob:"+e.x.P.resolveGlobal(e.pkg, s.S), SStr)}
+	case "errIs":
+		// errIs(err, "pkg.ErrName"): the error is, or wraps, the registered error (errors.Is)
+		ev := e.eval(n.Args[0])
+		s, ok := n.Args[1].(SStrLit)
+		if !ok || ev.K != VIface {
+			sfail("errIs(err, \"pkg.ErrName\")")
+		}
+		gname := "glob:" + e.x.P.resolveGlobal(e.pkg, s.S)
+		errGlobals[gname] = true
+		if errPtrTag == 0 {
+			for _, pk := range e.x.P.Pkgs {
+				for _, imp := range pk.Types.Imports() {
+					if imp.Path() == "cosmossdk.io/errors" {
+						if o := imp.Scope().Lookup("Error"); o != nil {
+							errPtrTag = typeID(types.NewPointer(o.Type()))
+						}
+					}
+				}
+			}
+		}
+		return boolVal(And(Neq(ev.Tag, Num(0)), Eq(errRootOf(ev), Const(gname, SInt))))
 	case "accType":
 		// type id stored in $accTag for "base" | "cva" | "module" accounts
 		s, ok := n.Args[0].(SStrLit)
